@@ -358,9 +358,76 @@ def shift_rules(ctx, prog):
         TB.check_shifts(prog, F, report)
 
 
+def root_name(n):
+    """the variable a store goes through: p for *p, *p++, p[i], *(p + k)"""
+    n = strip(n)
+    while True:
+        k = n["k"]
+        if k == "UnaryOperator" and n.get("op") in ("*", "++", "--"):
+            n = strip(n["c"][0])
+        elif k == "ArraySubscriptExpr":
+            n = strip(n["c"][0])
+        elif k == "BinaryOperator" and n["op"] in ("+", "-"):
+            n = strip(n["c"][0])
+        elif k == "MemberExpr" and n.get("c"):
+            n = strip(n["c"][0])
+        else:
+            break
+    return n.get("name") if n["k"] == "DeclRefExpr" else None
+
+
+WRITERS = ("memcpy", "memmove", "memset", "strcpy", "strncpy", "strcat", "wcscpy", "wcsncpy", "wcscat", "wmemcpy", "wmemset", "wmemmove")
+ENTRY_SIZERS = ("strlen", "wcslen", "argument_escaped_size")
+
+
+def builder_rules(ctx, prog):
+    """Z9: a builder writes its buffer once, front to back, through its cursor: no other pointer of the function is stored through and
+    no library writer is aimed at anything but the cursor (a second pass that edits what has been written changes bytes after the
+    quoting was decided).  Z10: every entry of a list is counted and written: the loops over the entries have no `continue` or
+    `break`, and neither the call that sizes an entry nor the one that writes it sits under a condition inside the loop."""
+    for fname, cursor in (("argv_join", "current"), ("env_join", "current"), ("env_concat", "c")):
+        F = prog.fn(fname)
+        stores = []
+        for n in F.walk():
+            k = n["k"]
+            if k in ("BinaryOperator", "CompoundAssignOperator") and n.get("op", "").endswith("=") and n["op"] not in ("==", "!=", "<=", ">="):
+                l = strip(n["c"][0])
+                if l["k"] in ("ArraySubscriptExpr",) or (l["k"] == "UnaryOperator" and l.get("op") == "*"):
+                    stores.append((root_name(l), expr_str(n)[:50], n["l"][0]))
+            elif k == "CallExpr" and n.get("callee") in WRITERS:
+                stores.append((root_name(n["c"][1]), expr_str(n)[:50], n["l"][0]))
+        if not stores:
+            ctx.floor_failures.append("C18.Z9: %s stores nothing itself (writing moved into helpers?), no verdict" % fname)
+            continue
+        other = ["%s (line %d)" % (s, l) for r, s, l in stores if r != cursor]
+        ctx.ob("C18.Z9", "%s: stores" % fname, "the buffer is written only through the cursor `%s`, once, front to back" % cursor, not other,
+               {"stores": len(stores), "through_other_pointers": other[:4]}, nontrivial=True)
+        loops = [x for x in F.walk() if x["k"] in ("ForStmt", "WhileStmt", "DoStmt")]
+        for lp in loops:
+            body = [x for x in walk_nodes(lp)]
+            jumps = [x for x in body if x["k"] in ("ContinueStmt", "BreakStmt")]
+            cond = []
+            for x in body:
+                is_entry = (x["k"] == "CallExpr" and (x.get("callee") in ENTRY_SIZERS or x.get("callee") in WRITERS or x.get("callee") == "argument_escape"))
+                if not is_entry:
+                    continue
+                for a in F.ancestors(x):
+                    if a["id"] == lp["id"]:
+                        break
+                    if a["k"] in ("IfStmt", "ConditionalOperator", "SwitchStmt"):
+                        cond.append(expr_str(x)[:40])
+                        break
+            ctx.ob("C18.Z10", "%s: loop at line %d" % (fname, lp["l"][0]), "every entry is counted and written: the loop has no continue/break and "
+                   "sizes / writes each entry unconditionally", not jumps and not cond,
+                   {"jumps": [x["k"] for x in jumps][:3], "conditional_entry_operations": cond[:3]}, nontrivial=True)
+    ctx.floor("C18.Z9", 3)
+    ctx.floor("C18.Z10", 6)
+
+
 def check(ctx):
     prog = win_prog(ctx)
     shift_rules(ctx, prog)
+    builder_rules(ctx, prog)
     quoting_decision_rules(ctx, prog)
     parent_block_rule(ctx, prog)
     # ---- Z1 argument_escaped_size / argument_escape
